@@ -18,6 +18,7 @@ import (
 	"github.com/cloudwego/dynamicgo/verifhook"
 	"github.com/cloudwego/dynamicgo/vsync"
 
+	"verif/checks/c18"
 	"verif/checks/jt"
 	"verif/engine/core"
 	"verif/ref/tbin"
@@ -100,10 +101,16 @@ func thirdType(k int) (s *tbin.Shape, def *tbin.Val, lit string, sample *tbin.Va
 // mkProgram builds program number pi (0..215): field i has requiredness (pi/6^i%6)/2 and a default iff odd.
 func mkProgram(pi int) *program { return mkProgramL(pi, -1) }
 
+// zeroLits: the rotating idSets layout with every literal default replaced by the zero value of its type.
+const zeroLits = -2
+
 // mkProgramL: layout < 0 = the rotating idSets layout, else edgeIDSets[layout].
 func mkProgramL(pi, layout int) *program {
 	ids := idSets[pi%len(idSets)]
 	p := &program{name: fmt.Sprintf("p%d", pi)}
+	if layout == zeroLits {
+		p.name = fmt.Sprintf("p%dZ", pi)
+	}
 	if layout >= 0 {
 		ids = edgeIDSets[layout]
 		p.name = fmt.Sprintf("p%dL%d", pi, layout)
@@ -125,6 +132,20 @@ func mkProgramL(pi, layout int) *program {
 			f.shape, f.def, f.lit, f.sample = thirdType(pi)
 			if f.def == nil {
 				f.hasDef = false
+			}
+		}
+		if layout == zeroLits && f.def != nil {
+			// the declared literal IS the zero value of the type: still a parsed default
+			f.def = zero(f.shape)
+			switch f.shape.T {
+			case tbin.STRING:
+				f.def, f.lit = tbin.Str(""), `""`
+			case tbin.BOOL:
+				f.lit = "false"
+			case tbin.DOUBLE:
+				f.lit = "0.0"
+			default:
+				f.lit = "0"
 			}
 		}
 		p.fields = append(p.fields, f)
@@ -245,6 +266,7 @@ type scen struct {
 	state   [3]int // per field: 0 absent, 1 null (j2t only), 2 present
 	order   []int  // order in which presented fields appear
 	unknown bool
+	unkNull bool // the unknown member's value is null (j2t sides)
 	ks      []int
 	dirty   []int // dirty pooled bitmap capacities (t2j/cut) or native cache capacities (j2t)
 	nested  *nestedSpec
@@ -290,11 +312,19 @@ func (s *scen) jsonDoc() []byte {
 		}
 		n++
 		if s.unknown && n == 1 {
-			j.Add("unknown_member", jt.JObj().Add("a", jt.JArr(jt.JNum("1"))))
+			if s.unkNull {
+				j.Add("unknown_member", jt.JNull())
+			} else {
+				j.Add("unknown_member", jt.JObj().Add("a", jt.JArr(jt.JNum("1"))))
+			}
 		}
 	}
 	if s.unknown && n == 0 {
-		j.Add("unknown_member", jt.JNum("1"))
+		if s.unkNull {
+			j.Add("unknown_member", jt.JNull())
+		} else {
+			j.Add("unknown_member", jt.JNum("1"))
+		}
 	}
 	return jt.Render(j, jt.Spell{})
 }
@@ -483,10 +513,14 @@ func (s *scen) errTrigger() string {
 		}
 	}
 	if s.unknown {
+		u := "unknown"
+		if s.unkNull {
+			u = "unknown-null"
+		}
 		if s.disallow() {
-			p = append(p, "unknown,disallow")
+			p = append(p, u+",disallow")
 		} else {
-			p = append(p, "unknown")
+			p = append(p, u)
 		}
 	}
 	if len(p) == 0 {
@@ -617,7 +651,10 @@ func (s *scen) judgeJSON(out []byte) *verdict {
 
 func (s *scen) run() core.Result {
 	r := core.Result{Class: "ok"}
-	r.Key = fmt.Sprintf("%s|%s|%v%v|%s|%v|%v|%v|%v", s.side, s.p.name, s.po.SetOptionalBitmap, s.po.UseDefaultValue, s.optName, s.state, s.order, s.unknown, s.nested != nil)
+	r.Key = fmt.Sprintf("%s|%s|%v%v|%s|%v|%v|%v%v|%v", s.side, s.p.name, s.po.SetOptionalBitmap, s.po.UseDefaultValue, s.optName, s.state, s.order, s.unknown, s.unkNull, s.nested != nil)
+	if s.side == "j2t-portable" {
+		return s.runPortable(r)
+	}
 	if s.nested != nil {
 		return s.runNested(r)
 	}
@@ -806,4 +843,53 @@ func (s *scen) run() core.Result {
 
 func (s *scen) Case() core.Case {
 	return core.Case{Tag: s.side, Desc: s.desc, Run: s.run}
+}
+
+// runPortable: the same j2t scenario through the portable converter (second binary, pipe server of C18). Over the
+// pipe only the presence of an error is visible, not its class; parse options are the defaults.
+func (s *scen) runPortable(r core.Result) core.Result {
+	doc := s.jsonDoc()
+	bits := 0
+	if s.co.DisallowUnknownField {
+		bits |= c18.ODisallowUnknownField
+	}
+	if s.co.WriteDefaultField {
+		bits |= c18.OWriteDefaultField
+	}
+	if s.co.WriteRequireField {
+		bits |= c18.OWriteRequireField
+	}
+	res, died, diag, err := c18.Portable(&c18.Req{IDL: s.p.prog.IDL(), Opts: []int{bits}, Doc: doc})
+	r.Count("conversions", 1)
+	switch {
+	case err != nil:
+		r.Class = "harness-portable"
+		r.Add("harness|portable-server", "%v", err)
+		return r
+	case died:
+		r.Class = "died"
+		r.Add("j2t-portable|"+s.errTrigger()+"|process-died-or-hung", "doc %s options %s: the portable converter process died or hung\n%s", doc, s.optName, diag)
+		return r
+	case res[0].Panic != "":
+		r.Class = "panic"
+		r.Add("j2t-portable|panic@"+res[0].Site+":"+core.PanicClass(res[0].Panic), "doc %s options %s\n%s", doc, s.optName, res[0].Panic)
+		return r
+	}
+	mustFail := len(s.mandatoryErrors()) > 0
+	var v *verdict
+	switch {
+	case mustFail && res[0].Err == "":
+		v = &verdict{s.errTrigger() + "|no-error", "the rule demands an error (missing required field / unknown field disallowed) but the conversion succeeded"}
+	case !mustFail && res[0].Err != "":
+		v = &verdict{s.errTrigger() + "|unexpected-error", "must succeed, got error: " + res[0].Err}
+	case !mustFail:
+		v = s.judgeThrift(res[0].Out)
+	}
+	if v != nil {
+		r.Class = "violation"
+		r.Add("j2t-portable|"+v.sig, "portable j2t.Do doc %s -> %x err=%q\noptions %s\n%s", doc, res[0].Out, res[0].Err, s.optName, v.detail)
+	} else if res[0].Err != "" {
+		r.Class = "error"
+	}
+	return r
 }
